@@ -142,8 +142,13 @@ fn task_name() -> String {
     shuttle::thread::current().name().map(|s| s.to_string()).unwrap_or_else(|| "?".to_string())
 }
 
+/// progress counter of the simulated world (every recorded event and every synchronisation point);
+/// read by the busy-loop watchdog of the runner
+pub static TICKS: std::sync::atomic::AtomicU64 = std::sync::atomic::AtomicU64::new(0);
+
 impl State {
     pub fn log(&mut self, what: &str, conn: usize, detail: u64) {
+        TICKS.fetch_add(1, std::sync::atomic::Ordering::Relaxed);
         let who = task_name();
         self.sig = mix(self.sig, hash_str(&who));
         self.sig = mix(self.sig, hash_str(what));
@@ -223,6 +228,7 @@ impl World {
     }
 
     pub fn flush(&self) {
+        TICKS.fetch_add(1, std::sync::atomic::Ordering::Relaxed);
         if std::thread::panicking() {
             return;
         }
